@@ -155,13 +155,24 @@ def displayedExecs (ss : List St) (db : Db) : List Nat :=
 inductive RecOp where
   | recordValue (vh : Nat) (isErr : Bool)
   | recordCallNode (ch vh : Nat)
-  | jobStart (id : Nat) (exec : Option Nat)   -- `some e`: root job, the Execution row `e` is added with it
+  | jobStart (id : Nat) (exec : Option Nat) (known : Option Nat)
+      -- `exec = some e`: root job, the Execution row `e` is added with it;
+      -- `known`: `job.call_hash` at that moment (a cache hit that already recovered its CallNode)
   | jobEnd (id : Nat) (cached : Bool) (ch : Nat)
   deriving Repr
 
-def startJob (db : Db) (id : Nat) (ex : Option Nat) : Db :=
-  if db.jobs.any (fun j => j.id == id) then db        -- primary key violation: rejected
-  else { db with jobs := db.jobs ++ [⟨id, true, false, none⟩],
+/-- the `call_hash` `record_job_start` puts into the new row: the regenerated `startWritesCallHash` says
+whether `Job(...)` is constructed with `call_hash=job.call_hash` -/
+def startCallHash (known : Option Nat) : Option Nat := if startWritesCallHash then known else none
+
+def fkMissing (ch : Option Nat) (db : Db) : Bool :=
+  match ch with
+  | some c => (alookup c db.calls).isNone
+  | none => false
+
+def startJob (db : Db) (id : Nat) (ex : Option Nat) (known : Option Nat) : Db :=
+  if db.jobs.any (fun j => j.id == id) || fkMissing (startCallHash known) db then db   -- primary / foreign key violation: rejected
+  else { db with jobs := db.jobs ++ [⟨id, true, false, startCallHash known⟩],
                  execs := match ex with | some e => db.execs ++ [(e, id)] | none => db.execs }
 
 def recStep (db : Db) : RecOp → Db
@@ -171,11 +182,11 @@ def recStep (db : Db) : RecOp → Db
     if (alookup ch db.calls).isSome then db
     else if (alookup vh db.values).isNone then db     -- foreign key call_node.value_hash: rejected
     else { db with calls := db.calls ++ [(ch, vh)] }
-  | .jobStart id ex => startJob db id ex
+  | .jobStart id ex known => startJob db id ex known
   | .jobEnd id c ch =>
     if (alookup ch db.calls).isNone then db           -- foreign key job.call_hash: rejected
     else
-      let db' := startJob db id none                  -- "Create the job if needed"
+      let db' := startJob db id none (some ch)        -- "Create the job if needed"
       { db' with jobs := db'.jobs.map fun j =>
           if j.id == id then { j with endNull := false, cached := c, callHash := some ch } else j }
 
